@@ -321,6 +321,7 @@ package evaluator
 //@   ensures  resultb(0) ==> ncalls == 2 && called(1, evaluator.Eval) && arg1(1) == node.JumpStmt && res == result(1)
 //@   assigns  EC
 //@ func evaluator.evalJumpIfDefer(node, env, cond) res
+//@   also     C15
 //@   requires node != nil && env != nil && node.JumpStmt != nil && isVal(cond)
 //@   ensures  ncalls == 1 && called(0, evaluator.isTruthy) && arg1(0) == cond
 //@   ensures  !resultb(0) ==> res == object.BuiltInNil
